@@ -1,6 +1,7 @@
 package sharedfile
 
 import (
+	"github.com/go-git/go-git/v6/internal/simhook"
 	"io"
 	"io/fs"
 	"sync"
@@ -86,6 +87,7 @@ func NewWithPool(open func() (ReadAtCloser, error), gracePeriod time.Duration, p
 // after the FD is in hand, which registers the SharedFile on first
 // open and refreshes its LRU position on every subsequent acquire.
 func (s *SharedFile) Acquire() (ReadAtCloser, error) {
+	simhook.BeforeLock(&s.mu)
 	s.mu.Lock()
 	if s.closed {
 		s.mu.Unlock()
@@ -130,6 +132,7 @@ func (s *SharedFile) Acquire() (ReadAtCloser, error) {
 // the FD stays open and registered. The pool drives the eventual
 // close via [SharedFile.ReleaseNow] when capacity is exceeded.
 func (s *SharedFile) Release() {
+	simhook.BeforeLock(&s.mu)
 	s.mu.Lock()
 	defer s.mu.Unlock()
 
@@ -162,6 +165,7 @@ func (s *SharedFile) Release() {
 
 	gen := s.gen
 	s.timer = time.AfterFunc(s.gracePeriod, func() {
+		simhook.BeforeLock(&s.mu)
 		s.mu.Lock()
 		defer s.mu.Unlock()
 		// Discard if state advanced since this timer was scheduled.
@@ -189,6 +193,7 @@ func (s *SharedFile) IsClosed() bool { return s.isClosed.Load() }
 // instant Pinned returns. The pool's eviction policy treats the
 // answer as a hint.
 func (s *SharedFile) Pinned() bool {
+	simhook.BeforeLock(&s.mu)
 	s.mu.Lock()
 	defer s.mu.Unlock()
 	return s.refs > 0
@@ -208,6 +213,7 @@ var _ fdpool.Pinnable = (*SharedFile)(nil)
 // pool's LRU before Close returns, so a racing eviction cannot
 // observe a freed Member.
 func (s *SharedFile) Close() error {
+	simhook.BeforeLock(&s.mu)
 	s.mu.Lock()
 	if s.closed {
 		s.mu.Unlock()
@@ -257,6 +263,7 @@ func (s *SharedFile) Close() error {
 // the deferred Close is discarded — Release has no return value
 // and the original ReleaseNow caller is no longer on the stack.
 func (s *SharedFile) ReleaseNow() error {
+	simhook.BeforeLock(&s.mu)
 	s.mu.Lock()
 	defer s.mu.Unlock()
 
